@@ -45,7 +45,7 @@ TEXT["C14"] = dict(
     technique="runtime round-trip monitors and stdlib differential over generated values and texts",
 )
 TEXT["C15"] = dict(
-    level="Online conservation monitoring: LimitReader and TruncatedWriter wrap a script-driven reader/writer that itself asserts, at every underlying call, that no more than the remaining limit is requested, while the caller side asserts pass-through of (k, err), prefix delivery, the (0, *LimitError{n}) regime and exact truncated forwarding. All histories over stream length 0..6 x limit 0..7 x 4/5 buffer sizes x 4/5 reader behaviours (and the writer analogue) are enumerated, plus deep random runs, limits up to 2^64-1, wrapped readers that break the contract with negative counts or grow after wrapping (Len), consumers that go through io.Copy / io.WriteString, payloads with multi-byte runes, and trees of 2..4 LimitReaders over one source (chains, siblings sharing a limited parent, readers created late) checked level by level. Exploration.",
+    level="Online conservation monitoring: LimitReader and TruncatedWriter wrap a script-driven reader/writer that itself asserts, at every underlying call, that no more than the remaining limit is requested, while the caller side asserts pass-through of (k, err), prefix delivery, the (0, *LimitError{n}) regime and exact truncated forwarding. All histories over stream length 0..6 x limit 0..7 x 4/5 buffer sizes x 4/5 reader behaviours (and the writer analogue) are enumerated, plus deep random runs, limits up to 2^64-1, wrapped readers that break the contract with negative counts or grow after wrapping (Len), consumers that go through io.Copy / io.WriteString, the standard library's writers (and one offering every optional writing interface) as the wrapped writer, payloads with multi-byte runes, and trees of 2..4 LimitReaders over one source (chains, siblings sharing a limited parent, readers created late) checked level by level. Exploration.",
     note="Wrapped readers stay inside the io.Reader contract.",
     technique="runtime conservation monitor (hooked wrapped reader/writer) over bounded-exhaustive fault scripts",
 )
@@ -61,12 +61,12 @@ TEXT["C07"] = dict(
     technique="runtime reference-model monitor plus marshal/re-parse round trip",
 )
 TEXT["C08"] = dict(
-    level="Event-log and shadow-model runtime monitoring: the ordered log of Add/HandleInvalid calls made by Parse is compared with a reference (line splitter + C07 reference) for each input under six reader fragmentations incl. injected read errors, four buffer sizes, named/unnamed sources and both destination kinds, incl. inputs of hundreds of lines and single lines of up to 60 000 bytes, BOM-like heads, and a check that the records a set retained are unchanged after Parse returned; DefaultStorage is compared with a two-index model after every Add of every Add-sequence up to depth 3/4 over 45 records plus long random sequences. Exploration.",
+    level="Event-log and shadow-model runtime monitoring: the ordered log of Add/HandleInvalid calls made by Parse is compared with a reference (line splitter + C07 reference) for each input under six reader fragmentations incl. injected read errors, four buffer sizes, named/unnamed sources and both destination kinds, incl. inputs of hundreds of lines and single lines of up to 60 000 bytes, BOM-like heads, and a check that the records a set retained are unchanged after Parse returned; DefaultStorage is compared with a two-index model after every Add of every Add-sequence up to depth 3/4 over 45 records plus long random sequences, large universes, and histories over names whose case relations differ between lower-casing and folding (the key relation is observed through probe addresses first, then both indexes must follow it). Exploration.",
     note="The reader scripts stay inside the io.Reader contract; at most 3 consecutive (0,nil) reads (100 is bufio's own abort).",
     technique="runtime event-log checker over scripted reader fragmentations plus shadow-model monitor of the storage",
 )
 TEXT["C12"] = dict(
-    level="Byte-level reference and membership runtime monitoring: conversions of 53 net.IP shapes (nil, every length 0..20, 4-byte/16-byte/mapped forms) x 477 masks (canonical, every single-hole, stray-one, nil, wrong length) x 3 functions, with subnet membership compared on boundary and bit-flip probe addresses, TCP/UDP/IP/Unix/custom net.Addr kinds with zones and out-of-range ports, and every slice up to length 5/6 over a 12-address pool sorted with both comparators. Exploration.",
+    level="Byte-level reference and membership runtime monitoring: conversions of 53 net.IP shapes (nil, every length 0..20, 4-byte/16-byte/mapped forms) x 477 masks (canonical, every single-hole, stray-one, nil, wrong length) x 3 functions, with subnet membership compared on boundary and bit-flip probe addresses, arguments checked for immutability, every other conversion made through a *net.IPNet value that was converted before with other contents, TCP/UDP/IP/Unix/custom net.Addr kinds with zones and out-of-range ports, and every slice up to length 5/6 over a 12-address pool sorted with both comparators. Exploration.",
     note="Trusts net.IPNet.Contains, netip.Prefix.Contains and netip.Addr.Compare. IPv4-mapped 16-byte probe addresses are excluded from the IPv6 membership comparison because package net and package netip disagree about them independently of golibs.",
     technique="runtime differential monitor (byte-level reference, membership probes, reference sort order)",
 )
@@ -84,7 +84,7 @@ TEXT["C09"] = dict(
 )
 
 TEXT["C10"] = dict(
-    level="Race detection plus linearizability checking of recorded histories: 15 000 (quick) / 300 000 (thorough) short concurrent histories on 13 cache configurations (count, size and element-size limits, with and without LRU and OnDelete) run under the Go race detector; each per-key history, with evictions observed through OnDelete as operations, is checked by porcupine against a sequential register model; every Get value is checksummed, every Stats snapshot is checked against the bounds and the hook's invariants are checked at quiescence; long unrecorded stress runs add race coverage, incl. caches of thousands of uniform elements on which every concurrent Stats snapshot must satisfy Size == 8*Count. The evidence reports how many histories had overlapping operations on a key and how often each pair of operation kinds overlapped. Exploration: schedules are sampled, not enumerated.",
+    level="Race detection plus linearizability checking of recorded histories: 15 000 (quick) / 300 000 (thorough) short concurrent histories on 13 cache configurations (count, size and element-size limits, with and without LRU and OnDelete) run under the Go race detector; each per-key history, with evictions observed through OnDelete as operations, is checked by porcupine against a sequential register model; every Get value is checksummed, every Stats snapshot is checked against the bounds and the hook's invariants are checked at quiescence, where a Set of a new key must also be stored exactly when the configuration and the space reported by Stats admit it; long unrecorded stress runs add race coverage, incl. caches of thousands of uniform elements on which every concurrent Stats snapshot must satisfy Size == 8*Count. The evidence reports how many histories had overlapping operations on a key and how often each pair of operation kinds overlapped. Exploration: schedules are sampled, not enumerated.",
     note="Trusts porcupine v1.3.0, the Go race detector's happens-before analysis for the accesses a run performs, and the 40-line model. A porcupine timeout (20 s) is inconclusive, never a verdict.",
     technique="Go race detector + offline linearizability checking (porcupine) of stamped client-boundary histories, with eviction events from a callback recorder",
 )
@@ -95,13 +95,13 @@ TEXT["C17"] = dict(
     technique="race-detector stress with counting monitors + synctest-bubble scenario enumeration judged at quiescence",
 )
 TEXT["C18"] = dict(
-    level="Online trace-specification monitoring inside synctest bubbles: all Shutdown outcome vectors (nil/error/panic/blocks until timeout) for up to 6/9 services crossed with signal scripts, and all tick-outcome sequences up to 11/19 ticks crossed with the shutdown options, are executed with fully instrumented collaborators; events are injected at quiescence and each log segment is checked against the statement's trace rules. The bubble also checks that the handler subscribed to the shutdown signal it is sent. An auxiliary race-detector stage fires ticks and signals concurrently with Shutdown, and an os_signal stage sends the process real SIGTERM/SIGINT/SIGQUIT through the default notifier. Exploration (the enumerated outcome space is swept completely; longer histories are not).",
+    level="Online trace-specification monitoring inside synctest bubbles: all Shutdown outcome vectors (nil/error/panic/blocks until timeout) for up to 6/9 services crossed with signal scripts, and all tick-outcome sequences up to 11/19 ticks crossed with the shutdown options (incl. a Shutdown context that is already cancelled or past its deadline), are executed with fully instrumented collaborators; events are injected at quiescence and each log segment is checked against the statement's trace rules. The bubble also checks that the handler subscribed to the shutdown signal it is sent. An auxiliary race-detector stage fires ticks and signals concurrently with Shutdown, and an os_signal stage sends the process real SIGTERM/SIGINT/SIGQUIT through the default notifier. Exploration (the enumerated outcome space is swept completely; longer histories are not).",
     note="Trusts testing/synctest of Go 1.24.2. Ticks racing Shutdown are outside the property's quantifier and only observed for data races.",
     technique="runtime trace checker over an ordered event log of instrumented collaborators, events injected at synctest quiescence",
 )
 
 TEXT["C19"] = dict(
-    level="Write-level runtime monitoring against a reference slog.TextHandler: every Write reaching the shared writer is captured and judged (one newline-terminated JSON object, exactly severity+message, message == reference line for the record plus the attributes accumulated on the derivation path) over all attribute-count derivation trees to depth 4/5 with 3 siblings per level, shared Records, hostile keys/values of every slog.Kind and 11 option sets (4 of them built through slogutil.New with an independently written reference, one that removes every built-in attribute); a concurrent stage under the race detector writes through a 7-handler tree to one deliberately unsynchronised writer and compares the multiset of lines with the references; a writer-fault stage makes the shared writer fail or panic in one of its first Writes and requires every later record to still come out as one line; a reentrant stage formats values that log through the same handler tree while being formatted. Exploration.",
+    level="Write-level runtime monitoring against a reference slog.TextHandler: every Write reaching the shared writer is captured and judged (one newline-terminated JSON object, exactly severity+message, message == reference line for the record plus the attributes accumulated on the derivation path) over all attribute-count derivation trees to depth 4/5 with 3 siblings per level, shared Records, hostile keys/values of every slog.Kind, attribute slices overwritten by the caller after WithAttrs and 13 option sets (4 of them built through slogutil.New with an independently written reference, one that removes every built-in attribute); a concurrent stage under the race detector writes through a 7-handler tree to one deliberately unsynchronised writer and compares the multiset of lines with the references; a writer-fault stage makes the shared writer fail or panic in one of its first Writes and requires every later record to still come out as one line; a reentrant stage formats values that log through the same handler tree while being formatted. Exploration.",
     note="Trusts slog.TextHandler and encoding/json of the pinned stdlib. Comparison is semantic (decoded JSON), so escaping style and member order are free.",
     technique="runtime differential monitor on the writer boundary (reference text handler) + race detector with an unsynchronised recording writer",
 )
